@@ -247,3 +247,150 @@ Example C03_ex_vm :
   | _ => []
   end = [49;58;49;59;51;58;51;59;110]%N.
 Proof. vm_compute. reflexivity. Qed.
+
+
+(* ================= the full world (Model/World1.v) ================= *)
+(* Everything the VM delegates is, in World1, the per-property model of the Rust function: Number.v
+   (C13), Order.v (C15), CollFilters.v (C16), Builtins.v (C17), Component.v (C05), Format.v (C19)
+   with FloatFmt.v for `{:?}` of f64.  Family `vm1` runs the real chunks in that world. *)
+From TeraV Require Model.World1 Model.Number Model.Order Model.Component Model.Format Model.Builtins
+  Proofs.World1Proofs Proofs.World1Compile Proofs.World1Format Proofs.NumCmpProofs.
+
+(* the main theorem transfers: World1 satisfies the two world hypotheses of C03_compile_correct
+   (string kwargs keys become owned string keys; no built-in filter reads the VM state), for any
+   component table *)
+Theorem C03_compile_correct_world1 :
+  forall (lib : list tdef) (comps : list (str * (comp_def * list instr)))
+         (name : str) (t : tdef) (cx glob : ctx) (w : str),
+    NoDup (map td_name lib) -> lib_wf lib -> find_t lib name = Some t ->
+    let wd := World1.world1 (map (fun t => (td_name t, compile_tdef t)) lib) comps in
+    match render (builtins_of_world wd) None lib name cx glob with
+    | ROk text => exists n s', forall k,
+        render_to str World1.wr_str1 wd (n + k) (compile_tdef t) None cx glob w = RDone s' (SinkTop (w ++ text))
+    | RErr _ => exists n e, forall k,
+        render_to str World1.wr_str1 wd (n + k) (compile_tdef t) None cx glob w = RFail e
+    end.
+Proof. exact World1Compile.compile_correct_world1. Qed.
+
+(* World1 answers what World0 answers on the World0 subset: well-formed (Order.wf) float-free
+   values; `<` between undefined/none/bool/integer/string operands; default, length, upper on
+   ASCII text, safe on strings (`pushed` = the value ApplyFilter pushes: World0 flags `safe` as an
+   is_safe filter, the engine and World1 do not -- the filter mints the safe string itself);
+   tests defined/undefined.  w_format: C03_world1_format_extends_world0 below.  World0 has no
+   arithmetic, functions or components to agree with (ErrOther / None there).  Outside the subset
+   World0 is NOT the engine (see C03_world0_is_a_toy). *)
+Theorem C03_world1_extends_world0 : forall tpls comps,
+  let w1 := World1.world1 tpls comps in
+  let w0 := world0 tpls in
+  w_templates w1 = w_templates w0 /\
+  w_max_depth w1 = w_max_depth w0 /\
+  w_escape w1 = w_escape w0 /\
+  (forall v, w_as_key w1 v = w_as_key w0 v) /\
+  (forall v a, w_get_attr w1 v a = w_get_attr w0 v a) /\
+  (forall m k, World1Proofs.kwf m -> Order.key_wf k = true -> w_map_get w1 m k = w_map_get w0 m k) /\
+  (forall a b, Order.wf a -> World1Proofs.ffree a = true -> Order.wf b -> World1Proofs.ffree b = true ->
+               w_eq w1 a b = w_eq w0 a b) /\
+  (forall a b, Order.wf a -> Order.wf b -> World1Proofs.w0_scalar a = true -> World1Proofs.w0_scalar b = true ->
+               w_cmp w1 a b = w_cmp w0 a b) /\
+  (forall c n, Order.wf c -> World1Proofs.ffree c = true -> Order.wf n -> World1Proofs.ffree n = true ->
+               w_contains w1 c n = w_contains w0 c n) /\
+  (forall v k sc, w_filter w1 n_default v k sc = w_filter w0 n_default v k sc) /\
+  (forall v k sc, w_filter w1 n_length v k sc = w_filter w0 n_length v k sc) /\
+  (forall s o k sc, World1Proofs.pushed (w_filter w1 n_safe (VStr s o) k sc)
+                    = World1Proofs.pushed (w_filter w0 n_safe (VStr s o) k sc)) /\
+  (forall v k sc, (forall s o, v = VStr s o -> World1.is_ascii_str s = true) ->
+                  w_filter w1 n_upper v k sc = w_filter w0 n_upper v k sc) /\
+  (forall v k, w_test w1 n_defined v k = w_test w0 n_defined v k) /\
+  (forall v k, w_test w1 n_undefined v k = w_test w0 n_undefined v k).
+Proof. exact World1Proofs.world1_extends_world0. Qed.
+
+(* Value::format: Format.v (C19) with World1's oracles prints what VFormat.v (World0) prints for
+   every well-formed value without floats and byte strings -- in particular the two decimal
+   printers (Coq's Z.to_int and the division loop of VFormat.z_to_str) give the same numeral *)
+Theorem C03_world1_format_extends_world0 : forall tpls comps v,
+  Order.wf v -> World1Format.plain v = true ->
+  w_format (World1.world1 tpls comps) v = w_format (world0 tpls) v.
+Proof. exact (fun _ _ => World1Format.format1_format_value). Qed.
+
+(* where the toy world is not the engine (all three outside what the `vm` family generates):
+   arrays are ordered, `safe` formats a non-string receiver, an ill-formed "unsigned -1" key *)
+Theorem C03_world0_is_a_toy :
+  (vcmp0 (VArr [VInt U64 1%Z]) (VArr [VInt U64 2%Z]) = None /\
+   Order.vpcmp (VArr [VInt U64 1%Z]) (VArr [VInt U64 2%Z]) = Some Lt) /\
+  (filter0 n_safe (VInt U64 1%Z) [] (Scope [] [] None [] None) = Some (RErr ErrMsg, true) /\
+   World1.filter1 n_safe (VInt U64 1%Z) [] (Scope [] [] None [] None) = Some (ROk (VStr [49%N] true), false)) /\
+  (key_eq (KInt I64 (-1)%Z) (KInt U64 (-1)%Z) = true /\ Order.key_eq (KInt I64 (-1)%Z) (KInt U64 (-1)%Z) = false).
+Proof.
+  exact (conj World1Proofs.vcmp0_differs_on_arrays
+           (conj World1Proofs.filter_safe_differs_on_non_strings World1Proofs.key_eq_vformat_differs_on_ill_formed)).
+Qed.
+
+(* the models World1 plugs together agree where they describe the same Rust function *)
+
+(* Key::eq and Key::cmp: VFormat.v (C01/C03), Format.v (C19), Component.v (C05) = Order.v (C15) on
+   keys whose integer fits its variant *)
+Theorem C03_models_agree_on_keys : forall a b, Order.key_wf a = true -> Order.key_wf b = true ->
+  key_eq a b = Order.key_eq a b /\ Format.fkey_eqb a b = Order.key_eq a b /\
+  Component.key_eqb a b = Order.key_eq a b /\
+  key_cmp a b = Order.key_cmp a b /\ Format.fkey_cmp a b = Order.key_cmp a b.
+Proof.
+  exact (fun a b Ha Hb =>
+    conj (World1Proofs.key_eq_vformat a b Ha Hb)
+      (conj (World1Proofs.key_eq_format a b Ha Hb)
+        (conj (World1Proofs.key_eq_component a b Ha Hb)
+          (conj (World1Proofs.key_cmp_vformat a b Ha Hb) (World1Proofs.key_cmp_format a b Ha Hb))))).
+Qed.
+
+(* Map::get, Value::get_attr (VFormat.v looks up with Map::get, Order.v ports the linear scan under
+   the cutoff + the hash lookup), kwargs.get(&Key::Str(name)) as Component.v and Builtins.v read it *)
+Theorem C03_models_agree_on_lookups :
+  (forall m k, World1Proofs.kwf m -> Order.key_wf k = true -> map_get m k = Order.map_get m k) /\
+  (forall v a, get_attr v a = Order.get_attr v a) /\
+  (forall v, as_key v = Order.as_key v) /\
+  (forall m n, Component.kw_get m n = Order.map_get m (KStr n false)) /\
+  (forall k n, Builtins.kw_find n (World1.kw_strs k) = Order.map_get k (KStr n false)).
+Proof.
+  exact (conj World1Proofs.map_get_vformat
+          (conj World1Proofs.get_attr_vformat
+            (conj World1Proofs.as_key_vformat
+              (conj World1Proofs.kw_get_component World1Proofs.kw_find_strs)))).
+Qed.
+
+(* numeric == and partial_cmp: Number.v (C13, f64 primitives of SpecFloat) = Order.v (C15, exact
+   dyadic comparison) for every pair of numbers the engine can hold *)
+Theorem C03_models_agree_on_numbers : forall a b, NumCmpProofs.wf_num a -> NumCmpProofs.wf_num b ->
+  Number.num_partial_cmp a b = Order.vpcmp a b /\ Number.num_eq a b = Order.veq a b.
+Proof.
+  exact (fun a b Wa Wb => conj (World1Proofs.num_partial_cmp_vpcmp a b Wa Wb) (World1Proofs.num_eq_veq a b Wa Wb)).
+Qed.
+
+(* utils::escape_html: Builtins.v (the escape_html filter) = VFormat.v (the escaper of WriteTop) *)
+Theorem C03_models_agree_on_escape_html : forall s, Builtins.escape_html s = escape_html s.
+Proof. exact World1Proofs.escape_html_builtins. Qed.
+
+Print Assumptions C03_compile_correct_world1.
+Print Assumptions C03_world1_extends_world0.
+Print Assumptions C03_world1_format_extends_world0.
+Print Assumptions C03_world0_is_a_toy.
+Print Assumptions C03_models_agree_on_keys.
+Print Assumptions C03_models_agree_on_lookups.
+Print Assumptions C03_models_agree_on_numbers.
+Print Assumptions C03_models_agree_on_escape_html.
+
+(* non-vacuity: {{ (n + 1.5) * 2 }}|{{ xs | sort | join(sep="-") }}|{{ 7 // 2 }} in World1 *)
+Example C03_ex_world1 :
+  let tpl := {| t_name := [116]%N;
+                t_chunk := [LoadName [110]%N; LoadConst (VFloat (S754_finite false 6755399441055744 (-52))); Plus;
+                            LoadConst (VInt U64 2%Z); Mul; WriteTop; WriteText [124]%N;
+                            LoadName [120;115]%N; LoadConst (VMap []); ApplyFilter [115;111;114;116]%N;
+                            LoadConst (VMap [(KStr [115;101;112]%N true, VStr [45]%N false)]);
+                            ApplyFilter [106;111;105;110]%N; WriteTop; WriteText [124]%N;
+                            LoadConst (VInt U64 7%Z); LoadConst (VInt U64 2%Z); FloorDiv; WriteTop];
+                t_root_chunk := []; t_lineage := []; t_autoescape := true |} in
+  match run str World1.wr_str1 (World1.world1 [] []) 100 tpl None 0 (t_chunk tpl) 0
+            (new_state [([110]%N, VInt U64 3%Z); ([120;115]%N, VArr [VInt U64 3%Z; VInt U64 1%Z; VInt U64 2%Z])])
+            (SinkTop []) with
+  | RDone _ (SinkTop out) => out
+  | _ => []
+  end = [57;46;48;124;49;45;50;45;51;124;51]%N.   (* 9.0|1-2-3|3 *)
+Proof. vm_compute. reflexivity. Qed.
